@@ -20,6 +20,13 @@ from pmon.ref.graph import errors as ref_errors, colon
 from pmon.checks import _trees
 
 ID = 'C16'
+
+
+def _repo():
+    from pmon import core
+    return core.REPO
+
+
 RULE = ('Model.errors: triple lists over 3 sources x 6 roles x 6 targets x explicit tops (exhaustive '
         'length<=2; random to 8 triples incl. 2-5 unreachable components and concepts spelled like '
         'variables) under default, AMR, mini-AMR and random tables, compared as an unordered mapping '
@@ -217,7 +224,7 @@ def run_cli_case(ctx, p):
         ctx.current = ['cli', p]
         runs = [('in-process', run_main(argv, texts[0] if use_stdin else None))]
         if p['i'] % 6 == 0:
-            env = dict(os.environ, PYTHONHASHSEED=str(p['i'] % 3), PYTHONPATH='/repo')
+            env = dict(os.environ, PYTHONHASHSEED=str(p['i'] % 3), PYTHONPATH=_repo())
             r = subprocess.run([sys.executable, '-m', 'penman'] + argv,
                                input=texts[0] if use_stdin else None, capture_output=True,
                                text=True, env=env, cwd=d, timeout=120, encoding='utf-8')
